@@ -1431,7 +1431,13 @@ pub mod verif {
         oversampling_factor: usize,
         window: WindowFunction,
     ) -> Box<dyn SincInterpolator<T>> {
-        super::make_interpolator(sinc_len, resample_ratio, f_cutoff, oversampling_factor, window)
+        super::make_interpolator(
+            sinc_len,
+            resample_ratio,
+            f_cutoff,
+            oversampling_factor,
+            window,
+        )
     }
 
     impl<T: Sample> SincFixedIn<T> {
